@@ -84,7 +84,8 @@ class _Canonical(ast.NodeTransformer):
     (k) `obj.a = X if c else Y` with a call in an arm -> `if c: obj.a = X  else: obj.a = Y`;
     (l) `if a: if b: X` -> `if a and b: X`;
     (m) `if a: r = X elif b: r = Y else: ...` followed by `return r` -> every arm returns what it assigned;
-    (o) `(A if c else B).m(args)` as a statement -> `if c: A.m(args) else: B.m(args)`."""
+    (o) `(A if c else B).m(args)` as a statement -> `if c: A.m(args) else: B.m(args)`;
+    (p) `xs = []` followed at once by `for T in IT: [if C:] xs.append(E)` -> `xs = [E for T in IT if C]` (sets, dicts alike)."""
 
     _OPS = (ast.Add, ast.Sub, ast.Mult, ast.BitOr, ast.BitAnd, ast.FloorDiv)
 
@@ -276,6 +277,61 @@ class _Canonical(ast.NodeTransformer):
         return n
 
     @staticmethod
+    def _collect_loop(st: ast.stmt, nx: Optional[ast.stmt]) -> Optional[ast.stmt]:
+        """(p) an empty collection followed at once by the loop that fills it, one element per trip, optionally under one
+        test, is the comprehension."""
+        tgt: Optional[ast.expr] = None
+        val: Optional[ast.expr] = None
+        if isinstance(st, ast.Assign) and len(st.targets) == 1 and isinstance(st.targets[0], ast.Name):
+            tgt, val = st.targets[0], st.value
+        elif isinstance(st, ast.AnnAssign) and isinstance(st.target, ast.Name) and st.value is not None:
+            tgt, val = st.target, st.value
+        if tgt is None or not isinstance(nx, ast.For) or nx.orelse or not isinstance(nx.target, (ast.Name, ast.Tuple)):
+            return None
+        kind = None
+        if isinstance(val, ast.List) and not val.elts:
+            kind = 'list'
+        elif isinstance(val, ast.Dict) and not val.keys:
+            kind = 'dict'
+        elif isinstance(val, ast.Call) and isinstance(val.func, ast.Name) and val.func.id == 'set' and not val.args and not val.keywords:
+            kind = 'set'
+        if kind is None:
+            return None
+        body = nx.body
+        cond: Optional[ast.expr] = None
+        if len(body) == 1 and isinstance(body[0], ast.If) and not body[0].orelse and len(body[0].body) == 1:
+            cond, body = body[0].test, body[0].body
+        if len(body) != 1:
+            return None
+        b = body[0]
+        name = tgt.id  # type: ignore[attr-defined]
+        elt: Optional[ast.expr] = None
+        key: Optional[ast.expr] = None
+        if kind in ('list', 'set') and isinstance(b, ast.Expr) and isinstance(b.value, ast.Call) and isinstance(b.value.func, ast.Attribute) and isinstance(b.value.func.value, ast.Name) and b.value.func.value.id == name \
+                and b.value.func.attr == ('append' if kind == 'list' else 'add') and len(b.value.args) == 1 and not b.value.keywords:
+            elt = b.value.args[0]
+        elif kind == 'dict' and isinstance(b, ast.Assign) and len(b.targets) == 1 and isinstance(b.targets[0], ast.Subscript) and isinstance(b.targets[0].value, ast.Name) and b.targets[0].value.id == name:
+            key, elt = b.targets[0].slice, b.value
+        if elt is None:
+            return None
+        for part in [elt, key, cond, nx.iter]:
+            if part is not None and any(isinstance(x, ast.Name) and x.id == name for x in ast.walk(part)):
+                return None
+            if part is not None and any(isinstance(x, (ast.Await, ast.Yield, ast.YieldFrom, ast.NamedExpr)) for x in ast.walk(part)):
+                return None
+        gen = ast.comprehension(target=nx.target, iter=nx.iter, ifs=[cond] if cond is not None else [], is_async=0)
+        comp: ast.expr
+        if kind == 'list':
+            comp = ast.ListComp(elt=elt, generators=[gen])
+        elif kind == 'set':
+            comp = ast.SetComp(elt=elt, generators=[gen])
+        else:
+            comp = ast.DictComp(key=key, value=elt, generators=[gen])
+        ast.copy_location(comp, nx)
+        new = ast.Assign(targets=[ast.copy_location(ast.Name(id=name, ctx=ast.Store()), tgt)], value=comp)
+        return ast.fix_missing_locations(ast.copy_location(new, st))
+
+    @staticmethod
     def _chain_has_else(st: ast.If) -> bool:
         while True:
             if not st.orelse:
@@ -360,6 +416,13 @@ class _Canonical(ast.NodeTransformer):
                             and isinstance(nx.value, ast.Name) and nx.value.id == st.targets[0].id and self._uses):
                         self.rewrites += 1
                         out.append(ast.copy_location(ast.Return(value=st.value), st))
+                        i += 2
+                        continue
+                    # (p) `xs = []` + `for T in IT: [if C:] xs.append(E)` -> `xs = [E for T in IT if C]` (set / dict alike)
+                    comp = self._collect_loop(st, nx)
+                    if comp is not None:
+                        self.rewrites += 1
+                        out.append(comp)
                         i += 2
                         continue
                     # (m) `if a: r = X elif b: r = Y else: ...` followed by `return r` -> each arm returns what it assigned
